@@ -148,12 +148,45 @@ pub struct Mutation {
 	rule: &'static str,
 	bytes: Vec<u8>,
 	strict: bool,
+	/// failure signature when the root cause is a named decoder (independent of the containing type)
+	sig: Option<&'static str>,
 }
 
 fn mutate(out: &mut Vec<Mutation>, rule: &'static str, strict: bool, b: &[u8], f: impl FnOnce(&mut Vec<u8>)) {
 	let mut m = b.to_vec();
 	f(&mut m);
-	out.push(Mutation { rule, bytes: m, strict });
+	out.push(Mutation { rule, bytes: m, strict, sig: None });
+}
+
+/// strict rule with a fixed signature
+fn mutate_sig(out: &mut Vec<Mutation>, rule: &'static str, sig: &'static str, b: &[u8], f: impl FnOnce(&mut Vec<u8>)) {
+	let mut m = b.to_vec();
+	f(&mut m);
+	out.push(Mutation { rule, bytes: m, strict: true, sig: Some(sig) });
+}
+
+/// evidence of one value, flushed under a single lock
+#[derive(Default)]
+struct Tally {
+	evals: u64,
+	classes: std::collections::BTreeMap<String, u64>,
+	shapes: Vec<u64>,
+}
+
+impl Tally {
+	fn class(&mut self, c: String) {
+		*self.classes.entry(c).or_insert(0) += 1;
+	}
+	fn flush(self, ev: &Ev) {
+		let mut g = ev.0.lock().unwrap();
+		g.evaluations += self.evals;
+		for (k, n) in self.classes {
+			*g.classes.entry(k).or_insert(0) += n;
+		}
+		for h in self.shapes {
+			g.shapes.insert(h);
+		}
+	}
 }
 
 pub trait Obj: Writeable + Readable + Sized {
@@ -194,25 +227,23 @@ fn case_json<T: Obj>(x: &T, mainnet: bool) -> Value {
 	}
 }
 
-fn check_mutation<T: Obj>(ctx: &Ctx, v: u32, b1: &[u8], m: &Mutation, counting: bool) -> PResult {
+fn check_mutation<T: Obj>(t: &mut Tally, v: u32, b1: &[u8], m: &Mutation) -> PResult {
 	let tag = T::tag();
 	if m.rule == "layout-mismatch" {
 		// the encoding is not laid out as the documented format says (or the harness's layout model is wrong)
 		fail!(format!("layout-mismatch:{}", tag), "{} v{}: {}; bytes={}", tag, v, String::from_utf8_lossy(&m.bytes), hex_short(b1));
 	}
 	ensure!(m.bytes != b1, "harness:mutation-noop", "{} v{} rule {}: mutation did not change the encoding", tag, v, m.rule);
-	if counting {
-		ctx.ev.eval();
-		ctx.ev.class(&format!("reject:{}", m.rule));
-		ctx.ev.nontrivial(&(&tag, v, "reject", m.rule));
-	}
+	t.evals += 1;
+	t.class(format!("reject:{}", m.rule));
+	t.shapes.push(hash_of(&(&tag, v, "reject", m.rule)));
 	let (r, used) = dec::<T>(&m.bytes, v);
 	match r {
 		Err(_) => Ok(()),
 		Ok(y) => {
 			if m.strict {
 				fail!(
-					format!("noncanonical-accepted:{}:{}", m.rule, tag),
+					m.sig.map(|s| s.to_string()).unwrap_or_else(|| format!("noncanonical-accepted:{}:{}", m.rule, tag)),
 					"{} v{}: encoding violating rule '{}' was decoded (consumed {} of {} bytes); valid={} mutated={}",
 					tag,
 					v,
@@ -225,9 +256,7 @@ fn check_mutation<T: Obj>(ctx: &Ctx, v: u32, b1: &[u8], m: &Mutation, counting: 
 			}
 			let re = enc(&y, v);
 			if re.as_ref().map(|r| r[..] == m.bytes[..]).unwrap_or(false) {
-				if counting {
-					ctx.ev.class("mutation_coincidentally_canonical");
-				}
+				t.class("mutation_coincidentally_canonical".into());
 				Ok(())
 			} else {
 				fail!(
@@ -261,10 +290,9 @@ fn check_obj<T: Obj>(ctx: &Ctx, x: &T, counting: bool) -> PResult {
 		);
 	}
 	let (nontriv, shape) = x.shape();
+	let mut t = Tally::default();
 	for v in versions() {
-		if counting {
-			ev.eval();
-		}
+		t.evals += 1;
 		let b1 = match enc(x, v) {
 			Ok(b) => {
 				ensure!(
@@ -286,10 +314,8 @@ fn check_obj<T: Obj>(ctx: &Ctx, x: &T, counting: bool) -> PResult {
 						v,
 						e
 					);
-					if counting {
-						ev.class(&format!("unsupported_version_refused:{}", tag));
-						ev.nontrivial(&(&tag, v, "unsupported"));
-					}
+					t.class(format!("unsupported_version_refused:{}", tag));
+					t.shapes.push(hash_of(&(&tag, v, "unsupported")));
 					continue;
 				}
 				fail!(format!("encode-failed:{}", tag), "{} v{}: ser_vec failed: {:?} ({})", tag, v, e, shape);
@@ -346,9 +372,9 @@ fn check_obj<T: Obj>(ctx: &Ctx, x: &T, counting: bool) -> PResult {
 					if let Err(m) = x.same(&y2, v) {
 						fail!(format!("roundtrip-mismatch-streaming:{}", tag), "{} v{}: StreamingReader decoded a different value: {}", tag, v, m);
 					}
-					if counting && sr.total_bytes_read() != b1.len() as u64 {
+					if sr.total_bytes_read() != b1.len() as u64 {
 						// measured only: the property does not speak about byte counters
-						ev.class(&format!("streaming_reader_byte_count_off_by_{}:{}", sr.total_bytes_read() as i64 - b1.len() as i64, tag));
+						t.class(format!("streaming_reader_byte_count_off_by_{}:{}", sr.total_bytes_read() as i64 - b1.len() as i64, tag));
 					}
 				}
 				Err(e) => fail!(format!("decode-failed-streaming:{}", tag), "{} v{}: StreamingReader refused own encoding: {:?}", tag, v, e),
@@ -358,26 +384,25 @@ fn check_obj<T: Obj>(ctx: &Ctx, x: &T, counting: bool) -> PResult {
 		let mut muts = vec![];
 		x.mutations(v, &b1, &mut muts);
 		for m in &muts {
-			check_mutation::<T>(ctx, v, &b1, m, counting)?;
+			check_mutation::<T>(&mut t, v, &b1, m)?;
 		}
 		// trailing byte: measured, never asserted
 		if counting && v == ProtocolVersion::local().0 {
-			let mut t = b1.clone();
-			t.push(0);
-			let (r, _) = dec::<T>(&t, v);
-			ev.class(&format!("trailing_byte_{}:{}", if r.is_ok() { "tolerated" } else { "refused" }, tag));
+			let mut tb = b1.clone();
+			tb.push(0);
+			let (r, _) = dec::<T>(&tb, v);
+			t.class(format!("trailing_byte_{}:{}", if r.is_ok() { "tolerated" } else { "refused" }, tag));
 		}
-		if counting {
-			ev.class(&format!("roundtrip:{}", tag));
-			if nontriv {
-				ev.nontrivial(&(&tag, v, &shape));
-			}
+		t.class(format!("roundtrip:{}", tag));
+		if nontriv {
+			t.shapes.push(hash_of(&(&tag, v, &shape)));
 		}
 	}
 	if counting {
 		for c in x.classes() {
-			ev.class(&c);
+			t.class(c);
 		}
+		t.flush(ev);
 		ev.sample(&tag, || json!({"type": tag, "shape": shape, "hex_v_lossless": truncate(&enc(x, x.lossless()).map(|b| hex(&b)).unwrap_or_default(), 300)}));
 	}
 	Ok(())
@@ -626,7 +651,7 @@ fn body_mutations(body: &TransactionBody, v: u32, start: usize, b: &[u8], out: &
 		Ok(l) => l,
 		Err(e) => {
 			// reported through a mutation that cannot fail to be flagged
-			out.push(Mutation { rule: "layout-mismatch", bytes: format!("layout: {}", e).into_bytes(), strict: false });
+			out.push(Mutation { rule: "layout-mismatch", bytes: format!("layout: {}", e).into_bytes(), strict: false, sig: None });
 			return;
 		}
 	};
@@ -1054,7 +1079,7 @@ impl Obj for CompactBlock {
 		}
 		lists.push(ListLayout { count_at: start + 16, items });
 		if at != b.len() {
-			out.push(Mutation { rule: "layout-mismatch", bytes: format!("compact block end {} != {}", at, b.len()).into_bytes(), strict: false });
+			out.push(Mutation { rule: "layout-mismatch", bytes: format!("compact block end {} != {}", at, b.len()).into_bytes(), strict: false, sig: None });
 			return;
 		}
 		list_mutations(&lists[0], ("cb-outputs-unsorted", "cb-outputs-duplicate", "count-more-cb-outputs"), b, out);
@@ -1242,7 +1267,7 @@ impl<T: Obj + Clone + std::fmt::Debug> Obj for Segment<T> {
 		let nl_at = 17 + 40 * nh;
 		let proof_at = b.len() - 8 - 32 * np;
 		if be64(b, 9) != nh as u64 || be64(b, nl_at) != nl as u64 || be64(b, proof_at) != np as u64 {
-			out.push(Mutation { rule: "layout-mismatch", bytes: b"segment count fields not where expected".to_vec(), strict: false });
+			out.push(Mutation { rule: "layout-mismatch", bytes: b"segment count fields not where expected".to_vec(), strict: false, sig: None });
 			return;
 		}
 		position_mutations(b, 17, nh, ("segment-hash-pos-unsorted", "segment-hash-pos-repeated", "segment-hash-pos-zero"), out);
@@ -1298,7 +1323,7 @@ impl Obj for BitmapSegment {
 	}
 	fn mutations(&self, _v: u32, b: &[u8], out: &mut Vec<Mutation>) {
 		let Some(blocks) = bitmap_blocks(b) else {
-			out.push(Mutation { rule: "layout-mismatch", bytes: b"bitmap segment blocks not parseable".to_vec(), strict: false });
+			out.push(Mutation { rule: "layout-mismatch", bytes: b"bitmap segment blocks not parseable".to_vec(), strict: false, sig: None });
 			return;
 		};
 		let n = blocks.len() as u16;
@@ -1308,6 +1333,42 @@ impl Obj for BitmapSegment {
 			}
 			if mode != 0 && cnt >= 1 && nc < 64 {
 				mutate(out, "bitmap-index-out-of-range", true, b, |m| m[at + 4..at + 6].copy_from_slice(&0xffffu16.to_be_bytes()));
+			}
+			if mode != 0 {
+				let idx_at = |i: usize| at + 4 + 2 * i;
+				let (r_unsorted, r_repeated) = if mode == 1 {
+					("bitmap-positive-indices-unsorted", "bitmap-positive-index-repeated")
+				} else {
+					("bitmap-negative-indices-unsorted", "bitmap-negative-index-repeated")
+				};
+				// adjacent pairs at the start, middle and end of the index list
+				let mut pairs = vec![];
+				if cnt >= 2 {
+					pairs = vec![0, (cnt - 2) / 2, cnt - 2];
+					pairs.dedup();
+				}
+				for i in pairs {
+					let (p, q) = (idx_at(i), idx_at(i + 1));
+					mutate_sig(out, r_unsorted, "noncanonical-accepted:BitmapBlock:unsorted-indices", b, |m| {
+						m[p..p + 2].copy_from_slice(&b[q..q + 2]);
+						m[q..q + 2].copy_from_slice(&b[p..p + 2]);
+					});
+					// same count, second of the pair overwritten by the first
+					mutate_sig(out, r_repeated, "noncanonical-accepted:BitmapBlock:repeated-index", b, |m| m[q..q + 2].copy_from_slice(&b[p..p + 2]));
+				}
+				if cnt >= 1 && cnt < 0xffff {
+					// one index written twice, count adjusted
+					for i in if cnt == 1 { vec![0] } else { vec![0, cnt - 1] } {
+						let p = idx_at(i);
+						mutate_sig(out, r_repeated, "noncanonical-accepted:BitmapBlock:repeated-index", b, |m| {
+							let dup = b[p..p + 2].to_vec();
+							let tail = m.split_off(p + 2);
+							m.extend_from_slice(&dup);
+							m.extend_from_slice(&tail);
+							m[at + 2..at + 4].copy_from_slice(&(cnt as u16 + 1).to_be_bytes());
+						});
+					}
+				}
 			}
 		}
 		mutate(out, "bitmap-zero-blocks", true, b, |m| m[9..11].copy_from_slice(&0u16.to_be_bytes()));
@@ -1393,6 +1454,36 @@ fn same_addr(what: &str, a: &PeerAddr, b: &PeerAddr) -> Result<(), String> {
 	eq(what, &a.0, &b.0)
 }
 
+const SIG_FAMILY_TAG: &str = "noncanonical-accepted:PeerAddr:family-tag";
+
+/// address family byte at `at` replaced by values the writer never emits
+fn family_tag_mutations(b: &[u8], at: usize, tags: impl Iterator<Item = u8>, out: &mut Vec<Mutation>) {
+	for t in tags {
+		mutate_sig(out, "peeraddr-family-tag-unknown", SIG_FAMILY_TAG, b, |m| m[at] = t);
+	}
+}
+
+fn addr_len(a: &PeerAddr) -> usize {
+	if a.0.is_ipv6() {
+		19
+	} else {
+		7
+	}
+}
+
+fn addr_shape(a: &PeerAddr) -> &'static str {
+	match a.0 {
+		SocketAddr::V4(_) => "v4",
+		SocketAddr::V6(s) => {
+			if s.ip().segments()[..6] == [0, 0, 0, 0, 0, 0] {
+				"v6compat"
+			} else {
+				"v6"
+			}
+		}
+	}
+}
+
 impl Obj for PeerAddr {
 	fn tag() -> String {
 		"PeerAddr".into()
@@ -1401,7 +1492,18 @@ impl Obj for PeerAddr {
 		same_addr("addr", self, y)
 	}
 	fn shape(&self) -> (bool, String) {
-		(self.0.is_ipv6(), if self.0.is_ipv6() { "v6".into() } else { "v4".into() })
+		(self.0.is_ipv6(), addr_shape(self).into())
+	}
+	fn mutations(&self, v: u32, b: &[u8], out: &mut Vec<Mutation>) {
+		if v == ProtocolVersion::local().0 {
+			// the whole range of family bytes the writer never emits
+			family_tag_mutations(b, 0, 2..=255u8, out);
+		} else {
+			family_tag_mutations(b, 0, [2u8, 3, 0x7f, 0x80, 0xff].into_iter(), out);
+		}
+	}
+	fn classes(&self) -> Vec<String> {
+		vec![format!("peeraddr:{}", addr_shape(self))]
 	}
 }
 
@@ -1419,6 +1521,14 @@ impl Obj for PeerAddrs {
 	fn mutations(&self, _v: u32, b: &[u8], out: &mut Vec<Mutation>) {
 		let n = self.peers.len() as u32;
 		mutate(out, "count-more-peer-addrs", true, b, |m| m[0..4].copy_from_slice(&(n + 1).to_be_bytes()));
+		let mut at = 4;
+		for (i, p) in self.peers.iter().enumerate() {
+			if i == 0 || i + 1 == self.peers.len() {
+				let sweep = [2u8, 3, 0x7f, 0x80, 0xff, (at as u8).wrapping_mul(37) | 2];
+				family_tag_mutations(b, at, sweep.into_iter(), out);
+			}
+			at += addr_len(p);
+		}
 	}
 }
 
@@ -1446,6 +1556,12 @@ impl Obj for Hand {
 		if be64(b, at) == n {
 			mutate(out, "count-more-string-bytes", true, b, |m| put64(m, at, n + 1));
 		}
+		// version(4) capabilities(4) nonce(8) total_difficulty(8) sender receiver
+		let s_at = 24;
+		let r_at = s_at + addr_len(&self.sender_addr);
+		let sweep = [2u8, 3, 0x7f, 0x80, 0xff, (self.nonce as u8) | 2];
+		family_tag_mutations(b, s_at, sweep.into_iter(), out);
+		family_tag_mutations(b, r_at, sweep.into_iter(), out);
 	}
 }
 
@@ -2235,9 +2351,10 @@ impl AddrSpec {
 		if self.v6 {
 			let mut s = self.ip;
 			let a = Ipv6Addr::new(s[0], s[1], s[2], s[3], s[4], s[5], s[6], s[7]);
-			// PeerAddr::read turns every IPv6 address that has an IPv4 form into that form
-			// (documented normalisation): only addresses without one are generated here
-			if a.to_ipv4().is_some() {
+			// PeerAddr::read deliberately turns the IPv4-mapped form ::ffff:a.b.c.d into
+			// the IPv4 address: that form alone is not generated. Everything else
+			// (including the IPv4-compatible form ::a.b.c.d, e.g. ::1) must round-trip.
+			if a.to_ipv4_mapped().is_some() {
 				s[0] = 0x2001;
 			}
 			let a = Ipv6Addr::new(s[0], s[1], s[2], s[3], s[4], s[5], s[6], s[7]);
@@ -2254,9 +2371,15 @@ fn addrspec() -> impl Strategy<Value = AddrSpec> {
 	(
 		any::<bool>(),
 		prop_oneof![
-			3 => prop::array::uniform8(any::<u16>()),
+			4 => prop::array::uniform8(any::<u16>()),
 			1 => Just([0x7f00, 1, 0, 0, 0, 0, 0, 0]),
-			1 => Just([0, 0, 0, 0, 0, 0, 0, 1]),
+			// IPv4-compatible form ::a.b.c.d (v6 loopback, unspecified, ::0.0.0.2, ::1.2.3.4, random)
+			2 => Just([0, 0, 0, 0, 0, 0, 0, 1]),
+			1 => Just([0, 0, 0, 0, 0, 0, 0, 0]),
+			1 => Just([0, 0, 0, 0, 0, 0, 0, 2]),
+			1 => Just([0, 0, 0, 0, 0, 0, 0x0102, 0x0304]),
+			2 => (any::<u16>(), any::<u16>()).prop_map(|(a, b)| [0, 0, 0, 0, 0, 0, a, b]),
+			// IPv4-mapped form: replaced by a 2001:: address when used as IPv6 (see AddrSpec::addr)
 			1 => Just([0, 0, 0, 0, 0, 0xffff, 0x0102, 0x0304]),
 			1 => Just([0xfe80, 0, 0, 0, 0, 0, 0, 1]),
 		],
@@ -2621,24 +2744,8 @@ fn probes(ctx: &Ctx) {
 	let lv = ProtocolVersion::local().0;
 	// PeerAddr
 	let v6 = |a: Ipv6Addr, port: u16| PeerAddr(SocketAddr::V6(SocketAddrV6::new(a, port, 0, 0)));
-	let mut b = enc(&v6(Ipv6Addr::new(0x2001, 0xdb8, 0, 0, 0, 0, 0, 1), 3414), lv).unwrap();
-	b[0] = 2;
-	probe::<PeerAddr>(ctx, &mut l, "peeraddr-family-tag-2", "PeerAddr", &b, lv, "family byte other than 0/1 with an IPv6 body");
-	let b = enc(&v6(Ipv6Addr::new(0, 0, 0, 0, 0, 0, 0, 1), 3414), lv).unwrap();
-	probe::<PeerAddr>(ctx, &mut l, "peeraddr-v6-loopback", "PeerAddr", &b, lv, "what the writer emits for [::1]:3414; Ipv6Addr::to_ipv4 maps ::1 to 0.0.0.1");
 	let b = enc(&v6(Ipv6Addr::new(0, 0, 0, 0, 0, 0xffff, 0x0102, 0x0304), 3414), lv).unwrap();
 	probe::<PeerAddr>(ctx, &mut l, "peeraddr-v4-mapped", "PeerAddr", &b, lv, "what the writer emits for [::ffff:1.2.3.4]:3414 (documented v4-in-v6 mapping)");
-	// RangeProof length handling
-	let mut b = 10u64.to_be_bytes().to_vec();
-	b.extend_from_slice(&[7u8; 10]);
-	probe::<RangeProof>(ctx, &mut l, "rangeproof-short", "RangeProof", &b, lv, "length prefix 10: zero-padded to 675 bytes");
-	let mut b = 700u64.to_be_bytes().to_vec();
-	b.extend_from_slice(&[7u8; 700]);
-	probe::<RangeProof>(ctx, &mut l, "rangeproof-long", "RangeProof", &b, lv, "length prefix 700: 675 bytes read, 25 left in the stream");
-	let mut p = OSpec::proof(1);
-	p.plen = 100;
-	let b = enc(&Output::new(OutputFeatures::Plain, COMMITS[200], p), lv).unwrap();
-	probe::<Output>(ctx, &mut l, "output-proof-plen-100", "Output", &b, lv, "what the writer emits for a RangeProof with plen 100");
 	// HeaderEntry bool byte
 	let h = HSpec { version: 1, height: 1, ts: 0, seed: 1, out_size: 1, kern_size: 1, td: 1, scaling: 1, nonce: 1, proof: PrSpec { mainnet: false, edge_bits: 3, nseed: 1, sorted: true } };
 	let mut b = enc(&h.header().as_elmt(), lv).unwrap();
@@ -2659,8 +2766,6 @@ fn probes(ctx: &Ctx) {
 		b.extend_from_slice(&0u64.to_be_bytes());
 		b
 	};
-	probe::<BitmapSegment>(ctx, &mut l, "bitmap-positive-unsorted", "BitmapSegment", &bm(&[1, 1, 0, 2, 0, 5, 0, 3]), lv, "positive index list 5,3");
-	probe::<BitmapSegment>(ctx, &mut l, "bitmap-positive-repeated", "BitmapSegment", &bm(&[1, 1, 0, 2, 0, 3, 0, 3]), lv, "positive index list 3,3");
 	let mut raw = vec![1u8, 0];
 	raw.extend_from_slice(&[0u8; 128]);
 	raw[2] = 0x80;
@@ -2718,12 +2823,138 @@ fn run_family<S: Strategy<Value = Spec>>(ctx: &Ctx, part: &str, cases: u64, make
 	ctx.ev.extra(&format!("wall_s_{}", part), json!(t0.elapsed().as_secs_f64()));
 }
 
+// ------------------------------------------------------------------ RangeProof declared length (known open finding)
+
+const SIG_RP_LEN: &str = "rangeproof-length-normalised";
+
+/// A range proof whose length prefix is L != 675, standalone or as the proof
+/// of an output, followed by L content bytes. Canonical form has exactly one
+/// length (675: every writer in the repository emits it), so such an encoding
+/// must be refused. `RangeProof::read` instead zero-pads L < 675 to 675 and,
+/// for L > 675, reads 675 bytes and leaves the rest in the stream: exactly
+/// that behaviour gets the signature `rangeproof-length-normalised`; anything
+/// else unexpected gets another one. This class is generated nowhere else.
+fn rp_len_bytes(in_output: bool, len: u64, seed: u64) -> Vec<u8> {
+	let mut b = vec![];
+	if in_output {
+		b.push((seed & 1) as u8);
+		b.extend_from_slice(&COMMITS[128 + (seed >> 8) as usize % 128].0);
+	}
+	b.extend_from_slice(&len.to_be_bytes());
+	let mut content = expand(seed, 9, len as usize);
+	// non-zero content so that zero padding / truncation is visible
+	for x in content.iter_mut() {
+		*x |= 1;
+	}
+	b.extend_from_slice(&content);
+	b
+}
+
+fn check_rp_len_typed<T: Readable + Writeable>(ty: &str, b: &[u8], len: u64, v: u32) -> PResult {
+	let head = b.len() - len as usize - 8;
+	let (r, used) = dec::<T>(b, v);
+	let y = match r {
+		// refused: canonical behaviour
+		Err(_) => return Ok(()),
+		Ok(y) => y,
+	};
+	let re = enc(&y, v).map_err(|e| Fail::new("rangeproof-length-unexpected", format!("{} v{}: re-encode failed {:?}", ty, v, e)))?;
+	let re_len = be64(&re, head);
+	if len < PROOF_LEN as u64 {
+		// short: all bytes consumed, re-encoded with length 675 = content + zero padding
+		let padded = used == b.len()
+			&& re_len == PROOF_LEN as u64
+			&& re.len() == head + 8 + PROOF_LEN
+			&& re[head + 8..head + 8 + len as usize] == b[head + 8..]
+			&& re[head + 8 + len as usize..].iter().all(|x| *x == 0);
+		if padded {
+			fail!(SIG_RP_LEN, "{} v{}: declared proof length {} accepted and zero-padded: re-encodes with length 675; input={}", ty, v, len, hex_short(b));
+		}
+	} else {
+		// long: only 675 content bytes consumed, the rest left in the stream
+		let truncated = used == head + 8 + PROOF_LEN && re_len == PROOF_LEN as u64 && re[head + 8..] == b[head + 8..head + 8 + PROOF_LEN];
+		if truncated {
+			fail!(
+				SIG_RP_LEN,
+				"{} v{}: declared proof length {} accepted: 675 bytes read, {} bytes left in the stream, re-encodes with length 675; input={}",
+				ty,
+				v,
+				len,
+				b.len() - used,
+				hex_short(b)
+			);
+		}
+	}
+	fail!(
+		"rangeproof-length-unexpected",
+		"{} v{}: declared proof length {} accepted in an unforeseen way (consumed {} of {}, re-encoded length field {}); input={}",
+		ty,
+		v,
+		len,
+		used,
+		b.len(),
+		re_len,
+		hex_short(b)
+	);
+}
+
+fn check_rp_len(ctx: &Ctx, case: &Value, counting: bool) -> PResult {
+	let in_output = case["type"] == "Output";
+	let len = case["declared_len"].as_u64().unwrap_or(0);
+	let v = case["version"].as_u64().unwrap_or(1) as u32;
+	let b = grin_util::from_hex(case["hex"].as_str().unwrap_or("")).map_err(|e| Fail::new("harness:replay-hex", format!("{:?}", e)))?;
+	ensure!(len != PROOF_LEN as u64 && b.len() >= len as usize + 8, "harness:rp-len-case", "malformed case");
+	if counting {
+		ctx.ev.eval();
+		ctx.ev.class(&format!("rangeproof_declared_length:{}:{}", if in_output { "Output" } else { "RangeProof" }, if len < PROOF_LEN as u64 { "short" } else { "long" }));
+		ctx.ev.nontrivial(&("rp-len", in_output, len < PROOF_LEN as u64, len == 0, v));
+	}
+	if in_output {
+		check_rp_len_typed::<Output>("Output", &b, len, v)
+	} else {
+		check_rp_len_typed::<RangeProof>("RangeProof", &b, len, v)
+	}
+}
+
+/// a handful per run; every accepted case is reported (known open finding) and the run goes on
+fn rp_len_part(ctx: &Ctx) {
+	init_thread();
+	set_chain(false);
+	let mut lens: Vec<u64> = vec![0, 1, 674, 676];
+	for k in 0..2 {
+		lens.push(2 + ctx.derive_seed("rp-len-short", k) % 672);
+		lens.push(677 + ctx.derive_seed("rp-len-long", k) % 1400);
+	}
+	let vs = versions();
+	for (i, len) in lens.iter().enumerate() {
+		for in_output in [false, true] {
+			let seed = ctx.derive_seed("rp-len-content", (i * 2 + in_output as usize) as u64);
+			let v = vs[i % vs.len()];
+			let case = json!({
+				"type": if in_output { "Output" } else { "RangeProof" },
+				"declared_len": len,
+				"version": v,
+				"hex": hex(&rp_len_bytes(in_output, *len, seed)),
+			});
+			let r = match catch(|| check_rp_len(ctx, &case, true)) {
+				Ok(r) => r,
+				Err(f) => Err(f),
+			};
+			if let Err(f) = r {
+				ctx.report("rangeproof-length", &f.sig, case, &f.msg);
+			}
+		}
+	}
+}
+
 pub fn run(ctx: &Ctx) -> HResult<()> {
 	init_global();
 	let ev = &ctx.ev;
 	ev.rule("typed values of every reachable consensus / wire type are generated by proptest from small specs (kernels of all four variants over the full field ranges, inputs in both encodings, outputs with real and synthetic 675-byte proofs, sorted unique bodies of 0..6 entries, headers with every field random at every edge_bits the proof codec is defined for with proof size 8 and 42, segments, bitmap segments in all three block encodings around the 4096 thresholds, handshake and sync messages); each value is crossed with protocol versions 1,2,3,1000 (local, db): encode, decode (exact consumption), equality (inputs by commitment where the version drops features), identical re-encoding, identity hash unchanged and equal to blake2b of the version-1 identity encoding; from every valid encoding one-rule violations of the canonical form are derived and must be refused; evaluations = (value, version) round trips + rejection cases; non-trivial = value with >= 2 entries in some list or a non-default variant, and every rejection case (its unmodified encoding decoded); distinct by (type, version, shape class | rule)");
 	ev.assume("blake2b (blake2-rfc) is trusted for the identity-hash oracle; hash collisions are treated as impossible");
 	ev.assume("an encoding whose count field promises more items than present may decode only if it is, by coincidence, the exact canonical encoding of the decoded value (never observed); all other derived violations must fail outright");
+	ev.assume("PeerAddr: IPv6 addresses of the IPv4-mapped form ::ffff:a.b.c.d are not generated (PeerAddr::read deliberately turns exactly that form into the IPv4 address); every other address, including the IPv4-compatible form ::a.b.c.d (::1, ::, ::0.0.0.2), must round-trip as written; flowinfo/scope_id are not on the wire and are generated as 0");
+	ev.assume("range proofs are generated with the one length every writer emits (675); encodings declaring another length are exercised only by the part rangeproof-length, whose acceptance is reported under the single signature rangeproof-length-normalised");
 	ev.assume("trailing bytes after a complete value are measured (classes trailing_byte_*), not asserted: the ser API has no end-of-value notion");
 	LIB.prefetch(&universe());
 	lazy_static::initialize(&COMMITS);
@@ -2734,6 +2965,7 @@ pub fn run(ctx: &Ctx) -> HResult<()> {
 	run_family(ctx, "chain", n, || chainspec().prop_map(Spec::Chain));
 	run_family(ctx, "segment", n, || segkind().prop_map(Spec::Seg));
 	run_family(ctx, "p2p", n, || p2pspec().prop_map(Spec::P2p));
+	rp_len_part(ctx);
 	if let Err(f) = catch(|| probes(ctx)) {
 		ctx.report("probes", &f.sig, json!({"type": "probes"}), &f.msg);
 	}
@@ -2751,6 +2983,7 @@ pub fn replay(ctx: &Ctx, part: &str, case: &Value) -> PResult {
 			}
 			check_case(ctx, case)
 		}
+		"rangeproof-length" => check_rp_len(ctx, case, false),
 		"probes" => catch(|| probes(ctx)),
 		_ => Ok(()),
 	}
